@@ -123,6 +123,15 @@ func TestC15Stream(t *testing.T) {
 					bs = append(bs, bsizes[r.Intn(len(bsizes))])
 				}
 			}
+			// keep the number of Read calls bounded: tiny buffers only
+			// alternate with a larger one
+			big := false
+			for _, b := range bs {
+				big = big || b >= 100
+			}
+			if !big {
+				bs = append(bs, 4096)
+			}
 			w, rd := securedPair(t, kind)
 			enc.Encode(map[string]any{"op": "new", "conn": kind, "scen": scen, "ws": ws, "bs": bs})
 			// writes (sequentially, the pipes are unbounded)
@@ -151,7 +160,7 @@ func TestC15Stream(t *testing.T) {
 			}
 			// reads until everything written has been claimed
 			rdPos, i := 0, 0
-			for rdPos < wrPos && i < 100000 {
+			for rdPos < wrPos && i < 1000000 {
 				bl := bs[i%len(bs)]
 				i++
 				buf := make([]byte, bl)
